@@ -131,7 +131,9 @@ pub fn run(opts: &Opts) -> Vec<Report> {
     std::thread::spawn(move || {
         let mut rep = Report::new("parallel_config_sweep");
         let mut distinct: BTreeSet<u64> = BTreeSet::new();
-        for n in 1..=max_rules {
+        // quick tier: every count up to 8, and the counts around the 16-worker / 24-rule limits of the quantifier
+        let counts: Vec<usize> = if max_rules >= 24 { (1..=max_rules).collect() } else { (1..=max_rules).chain([12, 16, 17, 20, 24]).collect() };
+        for n in counts {
             for t in 0..6usize {
                 for disabled in [None, Some(n / 2)] {
                     let kb = KnowledgeBase::new("kb");
@@ -209,7 +211,7 @@ pub fn run(opts: &Opts) -> Vec<Report> {
             r
         }
     };
-    rep.bound = format!("every (n_rules 1..={}, 6 salience templates with ties, one rule disabled or not, max_threads 1..=16, min_rules_per_thread 1..=4, parallelism on/off); OS schedules are sampled, not enumerated", max_rules);
+    rep.bound = format!("every (n_rules 1..={} (quick tier also 12, 16, 17, 20, 24), 6 salience templates with ties, one rule disabled or not, max_threads 1..=16, min_rules_per_thread 1..=4, parallelism on/off); OS schedules are sampled, not enumerated", max_rules);
     rep.assumptions.push("this half enumerates configurations exhaustively but only samples thread schedules (real threads); the exhaustive-schedule claim is carried by the loom half".into());
     rep.wall_s = t0.elapsed().as_secs_f64();
     out.push(rep);
